@@ -30,8 +30,8 @@ CHECKS = {
              note='public accessors only; lattice limited to <=4 (quick) / <=5 (thorough) user functions', ref='§6 C17'),
 
  'C08': dict(engine='L+P', technique='explicit-state reachability over the SSA value graph of every summarised function (reference model) vs the edges of the real summary',
-             text='For every function of every generated program and every function of the listed std packages, a BFS over the SSA operand graph (only the value-computing instruction kinds the property lists) from each parameter / free variable / call result must be matched by a summary edge to every reachable return operand, call argument, closure binding and branch condition.',
-             note='memory operations are not reference edges (one-sided); comma-ok flags and cap() excluded; closure-under-control-flow clause not implemented', ref='§6 C08'),
+             text='For every function of every generated program and every function of the listed std packages, a BFS over the SSA operand graph (only the value-computing instruction kinds the property lists) from each parameter / free variable / call result must be matched by a summary edge to every reachable return operand, call argument, closure binding and branch condition; and the real final abstract state (obtained through the post-block callback) must be closed under control-flow propagation: marks attached to a value after an instruction are attached after each of its CFG successors (default and field-sensitive).',
+             note='memory operations are not reference edges (one-sided); comma-ok flags and cap() excluded; uninstantiated generic bodies skipped (never reachable under InstantiateGenerics)', ref='§6 C08'),
 
  'C10': dict(engine='P', technique='exhaustive enumeration of all 0/1 specification matrices (arity<=3, results<=2) x call forms, oracle = the matrix',
              text='Every Args/Rets matrix for every signature of arity <=3 over {string,*string} with <=2 results, as function, method and interface-method contract (plus a contradicting function contract), with a function body implementing the complement flow: every listed flow must be reported and nothing outside the closure of the matrix (eager and on-demand).',
